@@ -65,9 +65,9 @@ def int_counts(arr):
     if not (top > 0 and np.isfinite(top)):
         return None
     out = np.round(np.asarray(arr, dtype=float) * (30000.0 / top)).astype(np.int64)
-    if not np.all(np.any(out != 0, axis=1)):
-        return None
-    return out
+    if not np.all(np.max(np.abs(out), axis=1) >= 300):
+        return None         # some row would keep less than 1 % resolution (a huge glitch elsewhere sets the full scale): its
+    return out              # direction would be rounded away, which is a defect of this conversion, not of the library
 
 
 def typed_history(spec, gyr, acc, mag):
